@@ -8,6 +8,7 @@ import Drv.RunCmd
 import Drv.Report
 import Drv.Use
 import Drv.Sched
+import Drv.DSet
 open Lean
 
 def dispatch (model : String) (j : Json) : Except String Json :=
@@ -15,6 +16,7 @@ def dispatch (model : String) (j : Json) : Except String Json :=
   | "browser" => Drv.Browser.run j
   | "diag" => Drv.Diag.run j
   | "slice" => Drv.Slice.run j
+  | "dset" => Drv.DSet.run j
   | "bonf" => Drv.Bonf.run j
   | "depgraph" => Drv.DepGraph.run j
   | "envp" => Drv.EnvP.run j
